@@ -179,7 +179,20 @@ func transTmplFuncs(s *expr.GRPCServiceExpr) map[string]any {
 		"goTypeRef": func(dt expr.DataType) string {
 			return service.Services.Get(s.Name()).Scope.GoTypeRef(&expr.AttributeExpr{Type: dt})
 		},
+		"unaliased": unaliasedMetadata,
 	}
+}
+
+// unaliasedMetadata returns the metadata data suitable for executing the
+// "type_conversion" template: the template goes by the name of the primitive
+// type, an aliased primitive type is replaced with its underlying type.
+func unaliasedMetadata(md *MetadataData) *MetadataData {
+	if !expr.IsAlias(md.Type) {
+		return md
+	}
+	res := *md
+	res.Type = unalias(&expr.AttributeExpr{Type: md.Type}).Type
+	return &res
 }
 
 // typeConversionData produces the template data suitable for executing the
